@@ -644,6 +644,14 @@ def oracle(case, impl, run):
                 pos.append(cand[0])
             if not ok:
                 break
+            if 'integ' in blk and impl.get('integ') is not None:
+                # the energy-integrated result printed with this block sits at the same time / mu / phi position
+                idx = (pos[0] * nmu + pos[1]) * nphi + pos[2]
+                if idx >= len(impl['integ']) or impl['integ'][idx][0] != blk['integ'][0] or impl['integ'][idx][1] != blk['integ'][1]:
+                    got = impl['integ'][idx][:2] if idx < len(impl['integ']) else None
+                    fails.append(('score_attached', f'energy-integrated result at t/mu/phi {pos}: '
+                                  f'{got and [unbits(x) for x in got]}, printed {[unbits(x) for x in blk["integ"]]}'))
+                    break
             for row in blk['rows']:
                 lo, hi = sorted((unbits(row[0]), unbits(row[1])))
                 cand = [i for i in range(ne) if ebins[i] == lo and ebins[i + 1] == hi]
